@@ -45,7 +45,9 @@ e = some(where (p.eft == allow))
 m = g(r.sub, p.sub) && g2(r.obj, p.obj) && r.act == p.act
 """,
 }
-COUNTS = {"rbac": (2, 0), "dom": (3, 0), "res": (2, 2)}
+# same semantics as "dom", but g() receives the RULE's domain (legal: the matcher requires r.dom == p.dom anyway)
+TEXT["dom2"] = TEXT["dom"].replace("g(r.sub, p.sub, r.dom) && r.dom == p.dom", "g(r.sub, p.sub, p.dom) && r.dom == p.dom")
+COUNTS = {"rbac": (2, 0), "dom": (3, 0), "res": (2, 2), "dom2": (3, 0)}
 
 SUBS = ["alice", "bob", "admin"]
 ROLES = ["admin", "root"]
@@ -265,8 +267,10 @@ def make_watcher(kind, is_async=False):
 
 
 class Config:
-    def __init__(self, shape, adapter=True, watcher=None, initial=None, is_async=False):
+    def __init__(self, shape, adapter=True, watcher=None, initial=None, is_async=False, text=None, matchfn=None):
         self.shape, self.adapter, self.watcher, self.is_async = shape, adapter, watcher, is_async
+        self.text = text or shape  # key into TEXT (a textual variant of the same model shape)
+        self.matchfn = matchfn  # None | "regex": a role-name matching function registered on g (no domain matching function)
         P, G, G2, R = universe(shape)
         self.initial = initial if initial is not None else {"p": [], "g": [], "g2": []}
         self.requests = R
@@ -279,14 +283,14 @@ class Config:
         )
 
     def key(self):
-        return (self.shape, self.adapter, self.watcher, self.is_async, repr(self.initial))
+        return (self.shape, self.text, self.matchfn, self.adapter, self.watcher, self.is_async, repr(self.initial))
 
 
 def build_enforcer(cfg, fail_after=None):
     casbin = common.use_repo()
     ad = make_adapter(casbin, cfg.initial, is_async=cfg.is_async) if cfg.adapter else None
     if cfg.is_async:
-        m = casbin.AsyncEnforcer.new_model(text=TEXT[cfg.shape])
+        m = casbin.AsyncEnforcer.new_model(text=TEXT[cfg.text])
         e = casbin.AsyncEnforcer(m, ad)
         if ad is not None:
             run_async(e.load_policy())
@@ -297,7 +301,7 @@ def build_enforcer(cfg, fail_after=None):
                     e.model.model[sec[0]][sec].policy.append(list(r))
             e.build_role_links()
     else:
-        m = casbin.Enforcer.new_model(text=TEXT[cfg.shape])
+        m = casbin.Enforcer.new_model(text=TEXT[cfg.text])
         if ad is None:
             e = casbin.Enforcer(m)
             # no adapter: install the initial policy directly
@@ -312,6 +316,10 @@ def build_enforcer(cfg, fail_after=None):
     if cfg.watcher:
         w = make_watcher(cfg.watcher, cfg.is_async)
         e.set_watcher(w)
+    if cfg.matchfn == "regex":
+        from casbin.util import regex_match_func
+
+        e.add_named_matching_func("g", regex_match_func)
     return e, ad, w
 
 
@@ -644,7 +652,7 @@ def compare_history(res, cfg, hist, impl, answers, idx, queries, judge):
         res.evaluations += 1
         res.count("op:" + op[0])
         res.count("ret:" + (rec["ret"] if rec["ret"] in ("T", "F", "-") or rec["ret"].startswith("!") else "list"))
-        case = {"config": {"shape": cfg.shape, "adapter": cfg.adapter, "watcher": cfg.watcher, "async": cfg.is_async, "initial": cfg.initial}, "history": [list(o) for o in hist[: i + 1]], "step": i}
+        case = {"config": {"shape": cfg.shape, "text": cfg.text, "matchfn": cfg.matchfn, "adapter": cfg.adapter, "watcher": cfg.watcher, "async": cfg.is_async, "initial": cfg.initial}, "history": [list(o) for o in hist[: i + 1]], "step": i}
         model = {"ret": mret, "acalls": acalls, "wcalls": wcalls, "obs": obs, "answers": [m for m, _ in qa], "fresh": [s for _, s in qa]}
         # ---- the tie: implementation vs model
         diffs = []
